@@ -92,7 +92,14 @@ def check_roundtrip(case):
     for v in new - old:
         if sum(1 for t in r.triples if t[0] == v and t[1] == ':instance') != 1:
             f.append(('reify-fresh-node-instance', '%s: %r' % (lab, v)))
+    rsnap = graphm.snapshot(r)
+    rtext = penman.encode(r, model=m, indent=None)
     d = transform.dereify_edges(r, m)
+    if graphm.snapshot(r) != rsnap or penman.encode(r, model=m, indent=None) != rtext:
+        f.append(('dereify-mutates-argument', lab))
+    d2 = transform.dereify_edges(r, m)
+    if graphm.snapshot(d2) != graphm.snapshot(d):
+        f.append(('dereify-twice-differs', '%s: %s vs %s' % (lab, short(d.triples, 200), short(d2.triples, 200))))
     if d.triples != g.triples:
         f.append(('dereify-restores-triples', '%s -> %s -> %s' % (lab, short(r.triples, 200), short(d.triples, 200))))
     elif d.top != g.top:
